@@ -8,6 +8,7 @@ import (
 	"encoding/hex"
 	"fmt"
 	"math/big"
+	"sync"
 
 	secp256k1 "gitlab.com/yawning/secp256k1-voi"
 
@@ -149,8 +150,49 @@ func CheckPointLight(p *Point, want ref.Pt) string {
 	return ""
 }
 
-// CheckObservers checks the observer methods of p against the model value.
+// CheckFreshConstructors: whatever the library was asked to do before (its call history: scratch objects, pools,
+// caches), the constructors without arguments return what they promise - NewIdentityPoint() an identity
+// representative (0, Y != 0, 0), NewGeneratorPoint() the generator - as valid objects, judged from raw coordinates.
+func CheckFreshConstructors() string {
+	id := secp256k1.NewIdentityPoint()
+	x, y, z, v := secp256k1.VerifPointXYZ(id)
+	var zero [4]uint64
+	if !v || secp256k1.VerifFELimbs(x) != zero || secp256k1.VerifFELimbs(z) != zero || secp256k1.VerifFELimbs(y) == zero {
+		return fmt.Sprintf("NewIdentityPoint() returned %s, not an identity representative (0, Y != 0, 0) marked valid", Raw(id))
+	}
+	g := secp256k1.NewGeneratorPoint()
+	genOnce.Do(func() {
+		if got, bad := PTVal(g); bad == "" && got.Equal(ref.G()) {
+			genRaw = Raw(g)
+		}
+	})
+	if Raw(g) != genRaw { // another representative than the first time, or something else: decide from the raw coordinates
+		got, bad := PTVal(g)
+		if bad != "" {
+			return "NewGeneratorPoint() returned an invalid object: " + bad
+		}
+		if !got.Equal(ref.G()) {
+			return fmt.Sprintf("NewGeneratorPoint() returned %v", got)
+		}
+	}
+	return ""
+}
+
+var (
+	genRaw  string
+	genOnce sync.Once
+)
+
+// CheckObservers checks the observer methods of p against the model value. Directly after every observer call the
+// constructors without arguments are checked too (CheckFreshConstructors): an observer leaves nothing behind that the
+// very next constructor call could pick up.
 func CheckObservers(p *Point, want ref.Pt) string {
+	fresh := func(after string) string {
+		if m := CheckFreshConstructors(); m != "" {
+			return "directly after " + after + " on another point: " + m
+		}
+		return ""
+	}
 	wi := uint64(0)
 	if want.Inf {
 		wi = 1
@@ -158,19 +200,32 @@ func CheckObservers(p *Point, want ref.Pt) string {
 	if g := p.IsIdentity(); g != wi {
 		return fmt.Sprintf("IsIdentity=%d, model %d", g, wi)
 	}
+	if m := fresh("IsIdentity"); m != "" {
+		return m
+	}
+	odd := p.IsYOdd()
+	if m := fresh("IsYOdd"); m != "" {
+		return m
+	}
 	if !want.Inf {
-		if g := p.IsYOdd(); g != uint64(want.Y.Bit(0)) {
-			return fmt.Sprintf("IsYOdd=%d, model %d", g, want.Y.Bit(0))
+		if odd != uint64(want.Y.Bit(0)) {
+			return fmt.Sprintf("IsYOdd=%d, model %d", odd, want.Y.Bit(0))
 		}
-	} else if g, c := p.IsYOdd(), secp256k1.NewIdentityPoint().IsYOdd(); g != c {
+	} else if c := secp256k1.NewIdentityPoint().IsYOdd(); odd != c {
 		// the identity has no y: whatever the test answers, it answers it for every representative of the identity
-		return fmt.Sprintf("IsYOdd of this identity representative = %d, of NewIdentityPoint() = %d (depends on the representative)", g, c)
+		return fmt.Sprintf("IsYOdd of this identity representative = %d, of NewIdentityPoint() = %d (depends on the representative)", odd, c)
 	}
 	if g := p.CompressedBytes(); !bytes.Equal(g, want.Compressed()) {
 		return fmt.Sprintf("CompressedBytes=%x, model %x", g, want.Compressed())
 	}
+	if m := fresh("CompressedBytes"); m != "" {
+		return m
+	}
 	if g := p.UncompressedBytes(); !bytes.Equal(g, want.Uncompressed()) {
 		return fmt.Sprintf("UncompressedBytes=%x, model %x", g, want.Uncompressed())
+	}
+	if m := fresh("UncompressedBytes"); m != "" {
+		return m
 	}
 	xb, err := p.XBytes()
 	if want.Inf {
@@ -180,7 +235,7 @@ func CheckObservers(p *Point, want ref.Pt) string {
 	} else if err != nil || !bytes.Equal(xb, ref.B32(want.X)) {
 		return fmt.Sprintf("XBytes=%x err=%v, model %x", xb, err, ref.B32(want.X))
 	}
-	return ""
+	return fresh("XBytes")
 }
 
 // PtHex / HexPt serialise abstract points for replay descriptors.
